@@ -6,7 +6,7 @@ import glob, json, os, re, subprocess, sys
 HERE = os.path.dirname(os.path.dirname(os.path.abspath(__file__)))
 only = sys.argv[1:]
 res = []
-for d in sorted(glob.glob(os.path.join(HERE, "seeded", "*"))):
+for d in sorted(glob.glob(os.path.join(HERE, "seeded", "c[0-9]*-*"))):
     m = json.load(open(os.path.join(d, "meta.json")))
     sid = m["seed"]
     if only and not any(sid.startswith(o) for o in only):
